@@ -6,7 +6,7 @@
 From Coq Require Import List NArith ZArith Bool Lia Arith.
 From GmsmVerif Require Import Lib.Outcome EC.ECAffine EC.SM2Curve SM3.SM3Spec
      SM2.SM2Bytes SM2.SM2BytesProofs SM2.SM2Spec SM2.DER SM2.SM2Model SM2.SM2SignProofs SM2.SM2GroupMin
-     SM2.SM2EncProofs SM2.SM2KxProofs.
+     SM2.SM2EncProofs SM2.SM2KxProofs SM2.SM2Unconditional.
 From GmsmVerif Require Import SM2.SM2ParamsTie Gen.SM2Params Gen.SM2SigParams.
 Import ListNotations.
 Open Scope Z_scope.
@@ -69,6 +69,18 @@ Theorem C13_kx_agree_facts :
                   KeyExchangeB klen ida idb (key_of dB) (ScalarBaseMult dA) (key_of rB) (ScalarBaseMult rA) = Err e').
 Proof. intros F. destruct (facts_split F) as (Hp & _ & Ha & Hg & Hf). exact (KeyExchange_agree Hp Ha Hg Hf). Qed.
 Print Assumptions C13_kx_agree_facts.
+
+(* associativity is a theorem (SM2/ECAssoc.v): agreement without that premise *)
+Theorem C13_kx_agree_noassoc :
+  P_prime -> G_order_divides_n -> G_multiples_finite -> forall klen ida idb dA dB rA rB,
+    Z.of_nat (length ida) < 8192 -> Z.of_nat (length idb) < 8192 ->
+    1 <= dA < sm2_n -> 1 <= dB < sm2_n -> 1 <= rA < sm2_n -> 1 <= rB < sm2_n ->
+    KeyExchangeA klen ida idb (key_of dA) (ScalarBaseMult dB) (key_of rA) (ScalarBaseMult rB) =
+    KeyExchangeB klen ida idb (key_of dB) (ScalarBaseMult dA) (key_of rB) (ScalarBaseMult rA) \/
+    (exists e e', KeyExchangeA klen ida idb (key_of dA) (ScalarBaseMult dB) (key_of rA) (ScalarBaseMult rB) = Err e /\
+                  KeyExchangeB klen ida idb (key_of dB) (ScalarBaseMult dA) (key_of rB) (ScalarBaseMult rA) = Err e').
+Proof. intros Hp. exact (KeyExchange_agree Hp (add_assoc_holds Hp)). Qed.
+Print Assumptions C13_kx_agree_noassoc.
 
 (* ---- 3. refusals (no premise): a peer ephemeral that is not a point of the curve with coordinates in
    [0,p) - this includes (0,0), the API's infinity - yields an error; so does V = O ---------------------- *)
